@@ -379,7 +379,13 @@ class ThrRunner:
                         obs["order"] = [p[0] for p in cur["prio"]]
                     obs["exact"] = self.float_exact(cur["prio"])
             elif k == "del":
-                self.sched.delete_job(self.created[o["key"]])
+                if o["key"] < len(self.created):
+                    target = self.created[o["key"]]
+                else:
+                    # a job this scheduler has never seen (registered with another scheduler)
+                    from scheduler.threading.scheduler import Scheduler as _S
+                    target = _S(tzinfo=tz_of(self.scn.get("tz"))).cyclic(_dt.timedelta(days=400), lambda: None)
+                self.sched.delete_job(target)
                 obs["res"] = ("u",)
             elif k == "dtags":
                 n = self.sched.delete_jobs(py_tags(o.get("tags"), o.get("qkind", "set")), bool(o.get("any", False)))
